@@ -97,6 +97,11 @@ func (s stakeTx) Validate(ctx *action.Context, tx action.SignedTx) (bool, error)
 		return false, action.ErrInvalidPubkey
 	}
 
+	// the consensus engine accepts ed25519 validator keys only
+	if st.ValidatorPubKey.KeyType != keys.ED25519 {
+		return false, action.ErrInvalidPubkey
+	}
+
 	coin := st.Stake.ToCoinWithBase(ctx.Currencies)
 	if !coin.IsValid() {
 		return false, errors.Wrap(action.ErrInvalidAmount, coin.String())
